@@ -67,6 +67,12 @@ func findClosestN(query fastaio.EncodedFastaRecord, catchmentSize int, maxdist f
 			distance = tn93Distance(query, target)
 		}
 
+		// an undefined distance (e.g. no site resolved in both sequences) must
+		// sort after every defined one, and NaN does not compare
+		if math.IsNaN(distance) {
+			distance = math.Inf(1)
+		}
+
 		if maxdist != -1.0 {
 			if distance > maxdist {
 				continue
